@@ -111,7 +111,10 @@ class Cluster:
             # Manage each cluster
             for c in self.cl:
                 if not self._clusters[c]['ingest']['status']:
-                    self._clusters[c]['usage_data']['ingest'] = 0
+                    # usage_data['ingest'] is kept by the per-task
+                    # increments/decrements in allocate_task_to_cluster; the
+                    # status flag is cleared when *any* ingest ends, so it
+                    # must not be used to zero the count of the others.
                     self._clusters[c]['ingest']['demand'] = 0
             yield self.env.timeout(TIMESTEP)
 
